@@ -1,4 +1,4 @@
-import SwcVerif.Refine.CtorInit
+import SwcVerif.Refine.CtorFromDf
 /-! # C03, the constructor every operation ends in, tied to the source by the translator
 
 `Gen.Algo.tree_init` / `padding1d` are regenerated from `swcgeom/core/tree.py::Tree.__init__` and `swcgeom/utils/numpy_helper.py::padding1d` on
@@ -55,5 +55,28 @@ example :
       some ([[0, 1, 2], [5, 6], [1, 2, 3], [-1, 0, 1, 2], [0, 0, 0], [0], [5, 6, 0], [0, 0, 0], [0, 0, 0], [0, 0, 0], [-1, 0, 1, 2]],
             [("id", ⟨0, 3, 0⟩), ("type", ⟨4, 3, 0⟩), ("x", ⟨6, 3, 1⟩), ("y", ⟨7, 3, 1⟩), ("z", ⟨8, 3, 1⟩), ("r", ⟨9, 3, 1⟩),
              ("pid", ⟨10, 3, 0⟩), ("foo", ⟨2, 3, 3⟩)], ()) := by decide +kernel
+
+/-- **`Tree.from_data_frame(df)` as translated** (`Gen.Algo.from_data_frame`, regenerated from `tree.py` on every run, running on the generated
+constructor): see `RefineCtorInit.from_data_frame_ok`.  In particular a frame whose columns already have the dtypes int32 / float32 (what `read_swc`
+produces) yields a tree whose standard columns are VIEWS of the frame's column arrays: tree and frame share storage. -/
+theorem generated_from_data_frame_spec (h : Bufs) (df : Dict String Arr) (n : Int) (hn : 0 ≤ n) (hv : AllValid h df)
+    (hnd : (df.map (·.1)).Nodup) (hstd : ∀ k ∈ STD.map (·.1), ∃ a, Dict.get? df k = some a) :
+    ∃ hF nd, from_data_frame h df n = some (hF, nd) ∧ (∃ ext, hF = h ++ ext) ∧
+      (∀ s ∈ STD, ∃ r, Dict.get? nd s.1 = some r ∧ ColOk h hF n (Dict.get? df s.1) s.2.1 s.2.2 r) ∧
+      (∀ k, k ∉ STD.map (·.1) → Dict.get? nd k = Dict.get? df k) :=
+  from_data_frame_ok h df n hn hv hnd hstd
+
+/-- non-vacuity (kernel-evaluated): a frame with the columns in another order, `r` as float64 and `pid` as int64, one extra column: five columns of
+the tree are the frame's own buffers (no allocation), `r` and `pid` are converted copies, `foo` is the frame's array; a frame without `z` raises -/
+example :
+    from_data_frame [[0, 1, 2], [1, 3, 3], [1, 2, 3], [4, 5, 6], [0, 0, 0], [1, 1, 1], [-1, 0, 1], [5, 5, 5]]
+        [("pid", ⟨6, 3, 2⟩), ("id", ⟨0, 3, 0⟩), ("type", ⟨1, 3, 0⟩), ("foo", ⟨7, 3, 3⟩), ("x", ⟨2, 3, 1⟩), ("y", ⟨3, 3, 1⟩), ("z", ⟨4, 3, 1⟩),
+         ("r", ⟨5, 3, 3⟩)] 3 =
+      some ([[0, 1, 2], [1, 3, 3], [1, 2, 3], [4, 5, 6], [0, 0, 0], [1, 1, 1], [-1, 0, 1], [5, 5, 5], [1, 1, 1], [-1, 0, 1]],
+            [("id", ⟨0, 3, 0⟩), ("type", ⟨1, 3, 0⟩), ("x", ⟨2, 3, 1⟩), ("y", ⟨3, 3, 1⟩), ("z", ⟨4, 3, 1⟩), ("r", ⟨8, 3, 1⟩), ("pid", ⟨9, 3, 0⟩),
+             ("foo", ⟨7, 3, 3⟩)]) ∧
+    from_data_frame [[0], [1], [0], [0], [1], [-1]]
+        [("id", ⟨0, 1, 0⟩), ("type", ⟨1, 1, 0⟩), ("x", ⟨2, 1, 1⟩), ("y", ⟨3, 1, 1⟩), ("r", ⟨4, 1, 1⟩), ("pid", ⟨5, 1, 0⟩)] 1 = none := by
+  decide +kernel
 
 end C03
